@@ -138,6 +138,8 @@ impl Mul<Scalar> for Challenge {
 #[derive(Debug)]
 pub struct ChallengeBuilder {
     hasher: Sha3_256,
+    #[cfg(feature = "verif-hooks")]
+    verif_log: Vec<u8>,
 }
 
 impl Default for ChallengeBuilder {
@@ -151,6 +153,8 @@ impl ChallengeBuilder {
     pub fn new() -> Self {
         Self {
             hasher: Sha3_256::new(),
+            #[cfg(feature = "verif-hooks")]
+            verif_log: Vec::new(),
         }
     }
 
@@ -167,6 +171,8 @@ impl ChallengeBuilder {
 
     /// Incorporate arbitrary bytes into the challenge.
     pub fn consume_bytes(&mut self, bytes: impl AsRef<[u8]>) {
+        #[cfg(feature = "verif-hooks")]
+        self.verif_log.extend_from_slice(bytes.as_ref());
         self.hasher.update(bytes);
     }
 
@@ -186,6 +192,35 @@ impl ChallengeBuilder {
             u64::from_le_bytes(<[u8; 8]>::try_from(&digested[16..24]).unwrap()),
             u64::from_le_bytes(<[u8; 8]>::try_from(&digested[24..32]).unwrap()),
         ]);
+        #[cfg(feature = "verif-hooks")]
+        verif_hooks::record(self.verif_log, scalar);
+        Challenge(scalar)
+    }
+}
+
+/// Verification instrumentation: records every (transcript bytes, challenge) pair produced by
+/// [`ChallengeBuilder::finish`] on the current thread. Compiled only with feature `verif-hooks`.
+#[cfg(feature = "verif-hooks")]
+#[allow(missing_docs)]
+pub mod verif_hooks {
+    use super::{Challenge, Scalar};
+    use std::cell::RefCell;
+
+    thread_local! {
+        static LOG: RefCell<Vec<(Vec<u8>, Scalar)>> = RefCell::new(Vec::new());
+    }
+
+    pub(super) fn record(bytes: Vec<u8>, challenge: Scalar) {
+        LOG.with(|log| log.borrow_mut().push((bytes, challenge)));
+    }
+
+    /// Take (and clear) the challenges recorded on this thread, oldest first.
+    pub fn drain_challenges() -> Vec<(Vec<u8>, Scalar)> {
+        LOG.with(|log| std::mem::take(&mut *log.borrow_mut()))
+    }
+
+    /// Build a challenge with a chosen value (to drive verifiers at edge-case challenges).
+    pub fn challenge_from_scalar(scalar: Scalar) -> Challenge {
         Challenge(scalar)
     }
 }
